@@ -132,7 +132,8 @@ def to_symbolic_model(model: Model) -> SymbolicModel:
     return SymbolicModel(
         variables=variables,
         parameters=parameters,
-        eqs=[eqs[i] for i in cache.var_names],
+        # Variables no reaction touches do not change
+        eqs=[eqs.get(i, sympy.Float(0.0)) for i in cache.var_names],
         initial_conditions=model.get_initial_conditions(),
         parameter_values=parameter_values,
         external=data | surrogates,
